@@ -28,6 +28,19 @@ What is modelled
   sources in sequence (`structBind2`: path params, then the query string, as `Bind` does on
   GET).  (The walk over arbitrary shapes, tags and sources is C09's model.)
 
+Round 4
+* `Time` / `MustTime` / `Times` / `MustTimes` (`Elem.time layout`): the same call skeletons as
+  `Duration(s)`; `time.Parse(layout, s)` is an external parser (`Ext` key `100 + layout`, the
+  layouts of a case are numbered by the harness).
+* `CustomFunc` / `MustCustomFunc` (`Op.custom`): the user function is a parameter — the op
+  carries what it WOULD do if invoked on the values (the destination it leaves and the number
+  of errors it returns, computed by the harness by calling the function on its own); the model
+  decides whether it is invoked (not when frozen, not when the parameter is absent) and
+  appends all returned errors.
+* struct binder: destinations implementing the multi-value interface `UnmarshalParams([]string)`
+  (`Wrap.multi`, `Wrap.ptrMulti`): `unmarshalInputsToField` hands ALL values over, before
+  `inputValue[0]` is touched (so an empty value list does not panic there).
+
 Platform assumption: `int`/`uint` are 64 bits (`strconv.IntSize = 64`).
 -/
 namespace C08
@@ -226,6 +239,7 @@ inductive Elem where
   | dur
   | str
   | unm          -- BindUnmarshaler / TextUnmarshaler of the harness: stores the text, fails iff it starts with `!`
+  | time (layout : Nat)   -- Time / MustTime / Times / MustTimes with the case's layout number `layout`
 deriving DecidableEq, Repr, Inhabited
 
 def parseElem (ext : Ext) : Elem → List Char → Option SVal
@@ -235,6 +249,7 @@ def parseElem (ext : Ext) : Elem → List Char → Option SVal
   | .dur, s => (ext 1 s).map .opq
   | .str, s => some (.opq s)
   | .unm, s => if s.head? = some '!' then none else some (.opq s)
+  | .time l, s => (ext (100 + l) s).map .opq
 
 def zeroOf : Elem → SVal
   | .num _ => .int 0
@@ -243,6 +258,7 @@ def zeroOf : Elem → SVal
   | .dur => .opq ['0']
   | .str => .opq []
   | .unm => .opq []
+  | .time _ => .opq []
 
 /-! ## ValueBinder -/
 
@@ -351,8 +367,26 @@ def callStep (ext : Ext) (b : VB) (c : Call) : VB × DVal :=
   | .slice => sliceCall ext b c
   | .delim => delimCall ext b c
 
+/-- a `CustomFunc` / `MustCustomFunc` call.  `result` / `errs`: what the user function does when
+    it is invoked on `values` (destination afterwards, number of errors returned) -/
+structure Custom where
+  must : Bool
+  values : List (List Char)     -- what ValuesFunc returns
+  init : DVal
+  result : DVal
+  errs : Nat
+deriving Repr, Inhabited
+
+/-- `customFunc`: fail-fast guard, absent ⇒ (Must: one error) and the function is NOT invoked,
+    otherwise invoke it once and append every error it returns -/
+def customStep (b : VB) (c : Custom) : VB × DVal :=
+  if b.frozen then (b, c.init)
+  else if c.values = [] then ((if c.must then b.addErr else b), c.init)
+  else ({ b with errors := b.errors + c.errs }, c.result)
+
 inductive Op where
   | call (c : Call)
+  | custom (c : Custom)
   | failFast (v : Bool)
   | bindError
   | bindErrors
@@ -369,6 +403,9 @@ def vbStep (ext : Ext) (b : VB) : Op → VB × Out
   | .call c =>
     let r := callStep ext b c
     (r.1, .call r.2 (r.1.errors - b.errors))
+  | .custom c =>
+    let r := customStep b c
+    (r.1, .call r.2 (r.1.errors - b.errors))
   | .failFast v => ({ b with failFast := v }, .nothing)
   | .bindError => ({ b with errors := 0 }, .err (b.errors != 0))
   | .bindErrors => ({ b with errors := 0 }, .errs b.errors)
@@ -381,6 +418,7 @@ def vbRun (ext : Ext) : VB → List Op → List Out
 
 inductive Wrap where
   | scalar | ptr | slice | sliceOfPtr | ptrToSlice
+  | multi | ptrMulti      -- T / *T with T implementing `UnmarshalParams([]string)` only
 deriving DecidableEq, Repr, Inhabited
 
 inductive FVal where
@@ -415,6 +453,10 @@ def structElems (ext : Ext) (e : Elem) : List (List Char) → Option (List SVal)
     | none => none
     | some v => (structElems ext e ss).map (v :: ·)
 
+/-- the harness's `UnmarshalParams`: stores all values; fails, before writing, iff one starts with `!` -/
+def multiParse (values : List (List Char)) : Option (List SVal) :=
+  if values.any (fun s => s.head? = some '!') then none else some (values.map .opq)
+
 inductive FOut where
   | ok (v : FVal)
   | err (v : FVal)      -- the walk stops with a 400; `v` is what the field holds then
@@ -428,25 +470,37 @@ deriving DecidableEq, Repr, Inhabited
 def bindField (ext : Ext) (f : Field) : FOut :=
   match f.values with
   | none => .ok f.init
-  | some [] => .panic
-  | some (v0 :: vs) =>
+  | some vals =>
     match f.wrap with
-    | .scalar =>
-      match structElem ext f.elem v0 with
-      | some v => .ok (.one v)
-      | none => .err f.init
-    | .ptr =>
-      match structElem ext f.elem v0 with
-      | some v => .ok (.one v)
-      | none => .err (match f.init with | .nil => .one (zeroOf f.elem) | w => w)
-    | .slice | .sliceOfPtr =>
-      match structElems ext f.elem (v0 :: vs) with
+    | .multi =>        -- unmarshalInputsToField: all values, no `inputValue[0]`
+      match multiParse vals with
       | some xs => .ok (.many xs)
       | none => .err f.init
-    | .ptrToSlice =>   -- pointer allocated, then the slice is built and assigned only on success
-      match structElems ext f.elem (v0 :: vs) with
+    | .ptrMulti =>     -- a nil pointer is allocated before UnmarshalParams is called
+      match multiParse vals with
       | some xs => .ok (.many xs)
-      | none => .err (match f.init with | .nil => .ptrNil | w => w)
+      | none => .err (match f.init with | .nil => .many [] | w => w)
+    | w =>
+      match vals with
+      | [] => .panic
+      | v0 :: vs =>
+        match w with
+        | .scalar =>
+          match structElem ext f.elem v0 with
+          | some v => .ok (.one v)
+          | none => .err f.init
+        | .ptr =>
+          match structElem ext f.elem v0 with
+          | some v => .ok (.one v)
+          | none => .err (match f.init with | .nil => .one (zeroOf f.elem) | w => w)
+        | .slice | .sliceOfPtr =>
+          match structElems ext f.elem (v0 :: vs) with
+          | some xs => .ok (.many xs)
+          | none => .err f.init
+        | _ =>   -- ptrToSlice: pointer allocated, then the slice is built and assigned only on success
+          match structElems ext f.elem (v0 :: vs) with
+          | some xs => .ok (.many xs)
+          | none => .err (match f.init with | .nil => .ptrNil | w => w)
 
 inductive Status where
   | ok | bad | panic
@@ -491,7 +545,8 @@ def pFTy : P FTy := do
 inductive Ctx where
   | struct | vbScalar (must : Bool) | vbSlice
 
-/-- `fam ty`: 0 int, 1 uint, 2 bool, 3 float, 4 duration, 5 string, 6 unmarshaler, 7 unix time, 8 byte -/
+/-- `fam ty`: 0 int, 1 uint, 2 bool, 3 float, 4 duration, 5 string, 6 unmarshaler, 7 unix time, 8 byte,
+    9 time with layout number `ty` -/
 def pElem (ctx : Ctx) : P Elem := do
   let fam ← nat
   let t ← nat
@@ -515,6 +570,8 @@ def pElem (ctx : Ctx) : P Elem := do
   | 6, _ => pure .unm
   | 7, .vbScalar _ => pure (.num .vbUnix)
   | 8, .vbScalar m => pure (.num (.vbByte m))
+  | 9, .vbScalar _ => pure (.time t)
+  | 9, .vbSlice => pure (.time t)
   | _, _ => failure
 
 def pSVal : P SVal := do
@@ -563,6 +620,13 @@ def pOp : P Op := do
   | 1 => do let v ← bool; pure (.failFast v)
   | 2 => pure .bindError
   | 3 => pure .bindErrors
+  | 4 => do
+    let must ← bool
+    let values ← list str
+    let init ← pDVal
+    let result ← pDVal
+    let errs ← nat
+    pure (.custom ⟨must, values, init, result, errs⟩)
   | _ => failure
 
 def encOut : Out → List String
@@ -575,7 +639,7 @@ def pWrap : P Wrap := do
   let n ← nat
   match n with
   | 0 => pure .scalar | 1 => pure .ptr | 2 => pure .slice | 3 => pure .sliceOfPtr
-  | 4 => pure .ptrToSlice | _ => failure
+  | 4 => pure .ptrToSlice | 5 => pure .multi | 6 => pure .ptrMulti | _ => failure
 
 def pFVal : P FVal := do
   let k ← nat
